@@ -1,6 +1,7 @@
 package dbdrv
 
 import (
+	"strings"
 	"sync/atomic"
 	"time"
 
@@ -32,6 +33,17 @@ func (d delayFS) wrap(f vfs.File, err error) (vfs.File, error) {
 	return &delayFile{File: f, n: d.n, inflight: d.inflight, passed: d.passed}, nil
 }
 func (d delayFS) Create(name string, c vfs.DiskWriteCategory) (vfs.File, error) {
+	// A job creating an output table is held for a moment before the file appears (and counts as
+	// "in flight" meanwhile), so that a concurrent job's directory sync can land BEFORE the creation
+	// and that job's bookkeeping AFTER it (pause() waits for in-flight ops to pass).
+	if d.inflight != nil && strings.HasSuffix(name, ".sst") && d.n.Add(1)%2 == 0 {
+		d.inflight.Add(1)
+		time.Sleep(time.Duration(500+(d.n.Load()*131)%2500) * time.Microsecond)
+		f, err := d.FS.Create(name, c)
+		d.inflight.Add(-1)
+		d.passed.Add(1)
+		return d.wrap(f, err)
+	}
 	return d.wrap(d.FS.Create(name, c))
 }
 func (d delayFS) OpenDir(name string) (vfs.File, error) { return d.wrap(d.FS.OpenDir(name)) }
